@@ -4,6 +4,7 @@ import Driver.OpsEngine
 import Driver.OpsFixed
 import Driver.OpsCli
 import Driver.OpsSql
+import Driver.OpsDataFormat
 open Driver
 
 def dispatch (args : List String) : String :=
@@ -16,6 +17,7 @@ def dispatch (args : List String) : String :=
     else if op == "fixed" then opFixed args
     else if op == "cli" then opCli args
     else if op.startsWith "sql." then opSql args
+    else if op == "df" || op.startsWith "df." then opDataFormat args
     else "bad-op"
 
 partial def loop (h : IO.FS.Stream) (out : IO.FS.Stream) : IO Unit := do
